@@ -319,7 +319,9 @@ def seq_cfg(work, name, base, invs, subst=None, emit=False):
 def transformed(sc, i, scale=True):
     """input corners the model's small numbers cannot carry directly: the harness scales quantities, shifts
     timestamps and switches the id format on the way in and undoes it on the way out (harness/src/model.rs)"""
-    if scale:
+    if i % 5 == 2:
+        sc["pscale"] = 999999999989          # every price (level, orders, requests) x a 40-bit prime, quantities unscaled
+    elif scale:
         sc["scale"] = [1 << 40, 999999999989][i % 2]
     sc["tsoff"] = str([0, 1800000000000000, (1 << 64) - 100000][i % 3])     # ms now-ish in microseconds; the 64-bit limit
     sc["ulid"] = (i % 4 == 3)
